@@ -308,6 +308,81 @@ def rule_writer_only_in_emit_flush(ctx, rep, rid='G3'):
                '%s %s: the socket can be written outside an emit that must, an explicit flush or drop' % (bad[0][0].short(), bad[0][2]))
 
 
+def rule_forwarding_impls(ctx, rep, rid='F1', methods=('flush', 'stats')):
+    """Every MetricSink impl in the crate whose emit() hands the metric to another MetricSink (a forwarding impl: `impl<T:
+    MetricSink> MetricSink for Arc<T>`, `Box<T>`, a private checking wrapper ..) must forward flush()/stats() to the same
+    object too: the trait's defaults are a silent no-op / all-zero statistics, and a forwarding impl on a pointer type also
+    captures `arc.flush()` calls that used to auto-deref to the sink itself."""
+    cad = ctx.cad
+    impls = cad.impls_of(SINK_TRAIT)
+    rep.floor(rid, 'MetricSink impls in the crate', len(impls), 8)
+    nfw = 0
+    for i in impls:
+        items = {it['name']: it['path'] for it in i['items']}
+        eb = cad.bodies.get(items.get('emit'))
+        if eb is None or eb.file.endswith('/test.rs') or '::tests::' in eb.path:
+            continue
+        rep.analysed(eb)
+        ib = inl(cad, eb)
+        T = Terms(ib)
+        fw = [bi for bi, t in ib.calls() if not ib.blocks[bi]['cleanup'] and callee_is(t, SINK_TRAIT + '::emit') and not t.get('resolved_local')
+              or (not ib.blocks[bi]['cleanup'] and callee_is(t, SINK_TRAIT + '::emit') and t.get('resolved_kind') == 'virtual')]
+        if not fw:
+            continue
+        nfw += 1
+        rep.sites()
+        name = strip_generics(i.get('self_ty') or i.get('self_adt') or eb.impl_self or '?')
+        recv = set(deep_peel(norm(T.call_term(bi))[2][0]) for bi in fw)
+        for meth in methods:
+            mb = cad.bodies.get(items.get(meth))
+            if mb is None:
+                rep.bad(rid, '%s/forwards-%s' % (name, meth), eb.where(), 'forwarding impl of MetricSink for %s passes emit() on but inherits the default %s() '
+                        '(%s)' % (name, meth, 'buffered metrics stay where they are' if meth == 'flush' else 'statistics read as zero'))
+                continue
+            imb = inl(cad, mb)
+            Tm = Terms(imb)
+            calls = [bi for bi, t in imb.calls() if not imb.blocks[bi]['cleanup'] and callee_is(t, SINK_TRAIT + '::' + meth) and
+                     (not t.get('resolved_local') or t.get('resolved_kind') == 'virtual')]
+            ok = len(calls) == 1 and count_events(imb, lambda x: x in calls) == {1} and deep_peel(norm(Tm.call_term(calls[0]))[2][0]) in recv and \
+                ret_terms(Tm, [0]) == {norm(Tm.call_term(calls[0]))}
+            rep.ob(rid, '%s/forwards-%s' % (name, meth), ok, mb.where(), '%s() is passed on to the same object as emit(), result unchanged' % meth if ok else
+                   '%s() of the forwarding impl for %s is not a plain delegation to the object emit() goes to' % (meth, name))
+    rep.good(rid, 'forwarding-impls', '', '%d of %d MetricSink impls pass emit() on to another sink; each forwards %s as well' % (nfw, len(impls), '/'.join(methods)))
+
+
+def rule_no_implicit_flush(ctx, rep, rid='G4'):
+    """Nothing in the library flushes a sink on its own initiative: MetricSink::flush is called only by the public
+    StatsdClient::flush (the user's explicit flush) and by flush() of sinks that pass it on (queuing wrapper, forwarding
+    impls).  A Drop impl of the client, an emit path or a statistics getter that flushes writes under-filled datagrams."""
+    cad = ctx.cad
+    allowed = set()
+    for i in cad.impls_of(SINK_TRAIT):
+        for it in i['items']:
+            if it['name'] == 'flush':
+                allowed.add(it['path'])
+    from .qmodel import private_region
+    cf = cad.method('cadence::client::StatsdClient', 'flush')
+    for b in cf:
+        if b.impl_trait is None:
+            allowed.add(b.path)
+    allowed |= private_region(cad, [cad.bodies[p_] for p_ in allowed if p_ in cad.bodies])
+    n = 0
+    bad = []
+    for b in cad.all_bodies:
+        if b.file.endswith('/test.rs') or '::tests::' in b.path:
+            continue
+        for bi, t in b.calls():
+            if callee_is(t, SINK_TRAIT + '::flush'):
+                n += 1
+                if b.path not in allowed and not any(b.path.startswith(p_ + '::') for p_ in allowed):
+                    bad.append((b, bi))
+    rep.floor(rid, 'calls of MetricSink::flush in the crate', n, 2)
+    rep.sites(n)
+    rep.ob(rid, 'flush-only-on-request', not bad, bad[0][0].where(bad[0][1]) if bad else '',
+           'MetricSink::flush is called by StatsdClient::flush and by forwarding flush() impls only' if not bad else
+           '%s flushes a sink although nobody asked for a flush' % sorted(set(b.short() for b, _ in bad)))
+
+
 def rule_D2(ctx, rep, rid='D2'):
     cad = ctx.cad
     bs = cad.method('cadence::client::StatsdClient', 'flush')
@@ -353,9 +428,12 @@ def rule_D3(ctx, rep, rid='D3', methods=('flush', 'stats')):
             continue
         b = cad.bodies[items[meth]]
         rep.analysed(b)
+        # local callees inlined: a forwarding impl on the pointer type (`impl MetricSink for Arc<T>`) that method resolution
+        # may have picked is followed to the dynamic call on the wrapped object - or to the trait's default no-op
+        b = inl(cad, b)
         T = Terms(b)
         calls = [bi for bi, t in b.calls() if not b.blocks[bi]['cleanup'] and callee_is(t, SINK_TRAIT + '::' + meth)
-                 and self_field_name(norm(T.call_term(bi))[2][0]) == fsink]
+                 and (t.get('resolved_kind') == 'virtual' or not t.get('resolved_local')) and self_field_name(norm(T.call_term(bi))[2][0]) == fsink]
         ok = False
         if len(calls) == 1 and count_events(b, lambda x: x in calls) == {1}:
             # the wrapped sink's method is reached on every path and its result is what the caller gets
@@ -397,7 +475,12 @@ def rule_D3(ctx, rep, rid='D3', methods=('flush', 'stats')):
                             a = _arc_new_of(v2, weak=True)
                             if a is not None:
                                 caps.append(a)
-            ok = arc is not None and arc[2] == (('param', 2),) and any(a == arc for a in caps)
+            inner = arc[2][0] if arc is not None and len(arc[2]) == 1 else None
+            # Arc::new(sink) or Arc::new(PrivateWrapper(sink)): a local forwarding wrapper around the user's sink is the
+            # wrapped sink as far as this rule goes (that it forwards flush/stats is rule F1)
+            wrapped = inner is not None and (inner == ('param', 2) or (inner[0] == 'adt' and inner[1] in cad.adts and
+                                                                        any(peel(v_) == ('param', 2) for _, v_ in inner[3])))
+            ok = wrapped and any(a == arc for a in caps)
             msg = 'handle.sink and the worker closure share one Arc::new(sink)' if ok else \
                 'handle.sink = %s ; closure captures %s' % (fmt(sink)[:160], [fmt(a)[:120] for a in caps])
     rep.ob(rid, 'build-shares-one-arc', ok, b.where(), msg)
